@@ -404,6 +404,8 @@ def correspond(ctx):
     stream_gate(ctx)
     stream_allene_wedges(ctx)
     stream_allene_wedge_model(ctx)
+    stream_dependent(ctx)
+    ctx.cov['programs'] += 3   # _chiral_morgan/__differentiation through ==/str, fix_stereo restore rounds, postprocess_molecule retry rounds
     ctx.cov['programs'] += 3   # ring_attached_cumulenes / ring linkers via chiral_*, add_wedge allene branch, _wedge_map allene orders
     ctx.cov['programs'] += 3   # add_atom_stereo, add_cis_trans_stereo, clean_stereo through the cache layer
     ctx.cov['programs'] += 2   # parser(), postprocess_molecule cis/trans loop
@@ -508,6 +510,17 @@ def probe(inp):
         eq = a == b
         return eq != inp['same'], (f"{inp['a']!r} -> {str(a)!r}; {inp['b']!r} -> {str(b)!r}; equal={eq}, "
                                    f"expected {'equal' if inp['same'] else 'different'} (RDKit: {rd_canon(inp['a'])!r} vs {rd_canon(inp['b'])!r})")
+    if kind == 'stereo-count':
+        from chython import smiles
+        m = smiles(inp['smiles'])
+        return n_labels(m) != inp['expected'], (f"{inp['smiles']!r} -> {str(m)!r} carries {n_labels(m)} labels, {inp['expected']} of its marked units "
+                                                f"are stereogenic (automorphism judge); RDKit: {rd_canon(inp['smiles'])!r}")
+    if kind == 'dependent-history':
+        return dep_history(inp['smiles'], inp['history'])
+    if kind == 'dependent-api':
+        return dep_api(inp['plain'], inp['marked'], inp['calls'])
+    if kind == 'dependent-edit':
+        return dep_edit(inp['from'], inp['to'], inp['atom'], inp['symbol'])
     if kind == 'gate':
         return gate_case(inp['template'], inp['seed'], 12)
     if kind == 'axis':
@@ -2840,3 +2853,430 @@ def stream_gate(ctx):
             ctx.fail(KNOWN_SPIRO, what, {'kind': 'gate', 'template': t, 'seed': seed})
         elif fails:
             ctx.fail(f'C12/non-stereogenic-atom-offered-or-labelled/{t}', what, {'kind': 'gate', 'template': t, 'seed': seed})
+
+
+# ================================================================================================
+# Round 5: label-dependent stereo units (pseudo-asymmetric centres and double bonds)
+# ================================================================================================
+# A *hub* (tetrahedral carbon or one end of a double bond) carries two or more constitutionally identical *arms*, each arm
+# holding a labelled stereo unit of its own.  Whether the hub is a stereo unit then depends on the labels of the arms
+# (`_chiral_morgan` / `__differentiation` rank equally-classed labelled units by configuration, `__chiral_centers` is re-read
+# after every round of `fix_stereo` / `postprocess_molecule` / `add_*_stereo`).  Judge (independent of chython and of RDKit):
+# two labelled molecules of one constitution are the same compound iff some constitutional automorphism (brute force over
+# the spec graph) carries every tetrahedral parity and every cis/trans relation of one onto the other; a unit is stereogenic
+# in a labelled molecule iff inverting it alone gives a different compound.
+
+DEP_ARMS = ('t3h', 't4', 'st3h', 'd2', 'd3', 'd3n', 'd4', 'sd3')
+DEP_DB_ARMS = ('d2', 'd3', 'd3n', 'd4')        # double bond directly on the attachment atom (not on a double-bond hub: conjugation)
+DEP_HUBS = ('T3h', 'T4', 'D3', 'D4')
+DEP_EDIT = {'F': 'Cl', 'O': 'S'}              # leaf replacement that makes two identical arms constitutionally distinct
+
+
+def dep_arm(kind, o, hub):
+    """one arm: (atoms, bonds, centres, dbonds, attachment atom); ids o+1.. ; `hub` = id of the atom it hangs on"""
+    A, B, C, D, E = o + 1, o + 2, o + 3, o + 4, o + 5
+    if kind == 't3h':      # -CH(CH3)OH
+        return {A: 'C', B: 'C', C: 'O'}, {(A, B): 1, (A, C): 1}, {A: ([hub, B, C, 'h'], True)}, {}, A
+    if kind == 't4':       # -C(CH3)(OH)F
+        return {A: 'C', B: 'C', C: 'O', D: 'F'}, {(A, B): 1, (A, C): 1, (A, D): 1}, {A: ([hub, B, C, D], True)}, {}, A
+    if kind == 'st3h':     # -CH2-CH(CH3)OH
+        return {A: 'C', B: 'C', C: 'C', D: 'O'}, {(A, B): 1, (B, C): 1, (B, D): 1}, {B: ([A, C, D, 'h'], True)}, {}, A
+    if kind == 'd2':       # -CH=CH-CH3
+        return {A: 'C', B: 'C', C: 'C'}, {(A, B): 2, (B, C): 1}, {}, {(A, B): (hub, C, True)}, A
+    if kind == 'd3':       # -CH=C(F)CH3      (far end carries two heavy substituents)
+        return {A: 'C', B: 'C', C: 'F', D: 'C'}, {(A, B): 2, (B, C): 1, (B, D): 1}, {}, {(A, B): (hub, C, True)}, A
+    if kind == 'd3n':      # -C(F)=CH-CH3     (near end carries two heavy substituents)
+        return {A: 'C', B: 'C', C: 'C', D: 'F'}, {(A, B): 2, (B, C): 1, (A, D): 1}, {}, {(A, B): (hub, C, True)}, A
+    if kind == 'd4':       # -C(F)=C(Cl)CH3
+        return ({A: 'C', B: 'C', C: 'Cl', D: 'C', E: 'F'}, {(A, B): 2, (B, C): 1, (B, D): 1, (A, E): 1}, {},
+                {(A, B): (E, D, True)}, A)
+    if kind == 'sd3':      # -CH2-CH=C(F)CH3
+        return ({A: 'C', B: 'C', C: 'C', D: 'F', E: 'C'}, {(A, B): 1, (B, C): 2, (C, D): 1, (C, E): 1}, {},
+                {(B, C): (A, E, True)}, A)
+    raise KeyError(kind)
+
+
+def dep_spec(name):
+    """'dep:<hub>:<arm>:<arm>' one hub, two arms | 'dep3:<arm>' C(O)(arm)3 | 'dep2:<arm>' two equivalent hubs, four arms
+    (arm)2CH-O-CH(arm)2 | 'depring:<n>' ring hubs"""
+    parts = name.split(':')
+    atoms, bonds, centres, dbonds = {}, {}, {}, {}
+
+    def add(kind, o, hub):
+        a = dep_arm(kind, o, hub)
+        atoms.update(a[0]), bonds.update(a[1]), centres.update(a[2]), dbonds.update(a[3])
+        bonds[(hub, a[4])] = 1
+        return a[4]
+
+    if parts[0] == 'dep':
+        hub, k1, k2 = parts[1:]
+        atoms[1] = 'C'
+        x, y = add(k1, 10, 1), add(k2, 20, 1)
+        if hub == 'T3h':
+            atoms[2] = 'O'
+            bonds[(1, 2)] = 1
+            centres[1] = ([2, 'h', x, y], True)
+        elif hub == 'T4':
+            atoms.update({2: 'O', 3: 'N'})
+            bonds.update({(1, 2): 1, (1, 3): 1})
+            centres[1] = ([2, 3, x, y], True)
+        elif hub == 'D3':
+            atoms.update({2: 'C', 3: 'C'})
+            bonds.update({(1, 2): 2, (2, 3): 1})
+            dbonds[(1, 2)] = (x, 3, True)
+        elif hub == 'D4':
+            atoms.update({2: 'C', 3: 'C', 4: 'F'})
+            bonds.update({(1, 2): 2, (2, 3): 1, (2, 4): 1})
+            dbonds[(1, 2)] = (x, 4, False)
+        else:
+            raise KeyError(hub)
+    elif parts[0] == 'dep3':
+        atoms.update({1: 'C', 2: 'O'})
+        bonds[(1, 2)] = 1
+        centres[1] = ([2] + [add(parts[1], 10 * (i + 1), 1) for i in range(3)], True)
+    elif parts[0] == 'dep2':
+        atoms.update({1: 'C', 2: 'C', 3: 'O'})
+        bonds.update({(1, 3): 1, (3, 2): 1})
+        for h, offs in ((1, (10, 20)), (2, (30, 40))):
+            centres[h] = ([3, 'h'] + [add(parts[1], o, h) for o in offs], True)
+    elif parts[0] == 'depring':
+        if parts[1] == 'cyclobutane-1,3':        # 3-methylcyclobutanol
+            atoms.update({1: 'C', 2: 'C', 3: 'C', 4: 'C', 5: 'O', 6: 'C'})
+            bonds.update({(1, 2): 1, (2, 3): 1, (3, 4): 1, (4, 1): 1, (1, 5): 1, (3, 6): 1})
+            centres.update({1: ([5, 'h', 2, 4], True), 3: ([6, 'h', 2, 4], True)})
+        else:                                    # 2,6-dimethylcyclohexanol
+            atoms.update({1: 'C', 2: 'C', 3: 'C', 4: 'C', 5: 'C', 6: 'C', 7: 'O', 8: 'C', 9: 'C'})
+            bonds.update({(i, i + 1): 1 for i in range(1, 6)})
+            bonds.update({(6, 1): 1, (1, 7): 1, (2, 8): 1, (6, 9): 1})
+            centres.update({1: ([7, 'h', 2, 6], True), 2: ([1, 3, 8, 'h'], True), 6: ([1, 5, 9, 'h'], True)})
+    else:
+        raise KeyError(name)
+    return Spec(atoms, bonds, centres, dbonds, name=name)
+
+
+def dep_names():
+    out = [f'dep:{h}:{k}:{k}' for h in DEP_HUBS for k in DEP_ARMS if not (h[0] == 'D' and k in DEP_DB_ARMS)]
+    out += ['dep:T3h:t3h:t4', 'dep:T4:d3:d3n', 'dep:D3:t3h:st3h', 'dep:T3h:d2:sd3']      # controls: arms constitutionally distinct
+    out += ['dep2:t3h', 'dep2:d3', 'dep2:d3n']
+    return out
+
+
+def spec_automorphisms(spec):
+    """all constitutional automorphisms of a Spec graph (element, bond orders), brute-force backtracking"""
+    inv = {a: (spec.atoms[a], tuple(sorted(spec.order(a, b) for b in spec.adj[a]))) for a in spec.atoms}
+    seen, order = set(), []
+    for s in spec.atoms:
+        if s in seen:
+            continue
+        q = [s]
+        seen.add(s)
+        while q:
+            x = q.pop(0)
+            order.append(x)
+            for y in spec.adj[x]:
+                if y not in seen:
+                    seen.add(y)
+                    q.append(y)
+    out = []
+
+    def go(i, pi, used):
+        if i == len(order):
+            out.append(dict(pi))
+            return
+        a = order[i]
+        for b in order:
+            if b in used or inv[b] != inv[a]:
+                continue
+            if all(c not in pi or (pi[c] in spec.adj[b] and spec.order(a, c) == spec.order(b, pi[c])) for c in spec.adj[a]):
+                pi[a] = b
+                used.add(b)
+                go(i + 1, pi, used)
+                del pi[a]
+                used.discard(b)
+
+    go(0, {}, set())
+    return out
+
+
+def same_config(s1, s2, pi):
+    """the configuration of s1, carried along the automorphism pi, is the configuration of s2"""
+    def f(v):
+        return v if v == 'h' else pi[v]
+    for c, (ref, sign) in s1.centres.items():
+        if same_tetra(([f(v) for v in ref], sign), s2.centres[pi[c]]) is not True:
+            return False
+    for (a, b), (x, y, cis) in s1.dbonds.items():
+        a2, b2, x2, y2 = pi[a], pi[b], pi[x], pi[y]
+        if (a2, b2) in s2.dbonds:
+            p, q, cis2 = s2.dbonds[(a2, b2)]
+        else:
+            q, p, cis2 = s2.dbonds[(b2, a2)]
+        if (cis2 == ((p == x2) == (q == y2))) != cis:
+            return False
+    return True
+
+
+def dep_combos(spec):
+    """(elements, the 2^k label combinations, class id per combination by the automorphism judge)"""
+    els = [('c', c) for c in spec.centres] + [('d', d) for d in spec.dbonds]
+    auts = spec_automorphisms(spec)
+    combos = []
+    for mask in range(1 << len(els)):
+        pick = [e for i, e in enumerate(els) if mask >> i & 1]
+        combos.append(flip_subset(spec, {x for t, x in pick if t == 'c'}, {x for t, x in pick if t == 'd'}))
+    cls = list(range(len(combos)))
+    for i in range(len(combos)):
+        for j in range(i):
+            if cls[j] == j and any(same_config(combos[i], combos[j], pi) for pi in auts):
+                cls[i] = j
+                break
+    return els, combos, cls
+
+
+def n_labels(mol):
+    return sum(a.stereo is not None for _, a in mol.atoms()) + sum(b.stereo is not None for *_, b in mol.bonds())
+
+
+def _h_fix(m):
+    m.fix_stereo()
+    return m
+
+
+def _h_hyd(m):
+    m.explicify_hydrogens()
+    m.implicify_hydrogens()
+    return m
+
+
+def _h_union(m):
+    from chython import smiles
+    return max((m | smiles('O')).split(), key=len)
+
+
+def _h_add_delete(m):
+    m.delete_atom(m.add_atom('C'))
+    return m
+
+
+def _h_canon(m):
+    m.canonicalize()
+    return m
+
+
+def _h_rdkit(m):
+    from chython.utils.rdkit import to_rdkit_molecule, from_rdkit_molecule
+    return from_rdkit_molecule(to_rdkit_molecule(m))
+
+
+def _h_bond(m):
+    n = m.add_atom('C')
+    k = m.add_atom('C')
+    m.add_bond(n, k, 1)
+    m.delete_bond(n, k)
+    m.delete_atom(n)
+    m.delete_atom(k)
+    return m
+
+
+def _h_warm_fix(m):
+    str(m), m.chiral_tetrahedrons, m.chiral_cis_trans
+    m.fix_stereo()
+    return m
+
+
+DEP_HISTORIES = {'fix_stereo': _h_fix, 'explicify+implicify': _h_hyd, 'substructure(all)': lambda m: m.substructure(list(m)),
+                 'union+split': _h_union, 'add_atom+delete_atom': _h_add_delete, 'canonicalize': _h_canon,
+                 'rdkit-round-trip': _h_rdkit, 'copy': lambda m: m.copy(), 'add_bond+delete_bond': _h_bond,
+                 'reads+fix_stereo': _h_warm_fix}
+
+
+def dep_history(smi, hist):
+    """(fails, what): a constitution-preserving operation must leave the labelled molecule what its fresh parse is"""
+    from chython import smiles
+    fresh = smiles(smi)
+    m = DEP_HISTORIES[hist](smiles(smi))
+    ok = str(m) == str(fresh) and m == fresh and n_labels(m) == n_labels(fresh)
+    return not ok, (f'{smi!r} parses to {str(fresh)!r} ({n_labels(fresh)} labels); after {hist} it is {str(m)!r} '
+                    f'({n_labels(m)} labels), equal={m == fresh}')
+
+
+def dep_api(smi_plain, smi_marked, calls):
+    """(fails, what): labelling an unmarked parse through add_atom_stereo / add_cis_trans_stereo (units that are not yet
+    stereogenic are retried after the others, as every reader does) gives the molecule the marked spelling parses to"""
+    from chython import smiles
+    from chython.exceptions import NotChiral
+    m, exp = smiles(smi_plain), smiles(smi_marked)
+    todo = [tuple(c) for c in calls]
+    while todo:
+        rest = []
+        for c in todo:
+            try:
+                if c[0] == 'c':
+                    m.add_atom_stereo(c[1], tuple(c[2]), bool(c[3]))
+                else:
+                    m.add_cis_trans_stereo(c[1], c[2], c[3], c[4], bool(c[5]))
+            except NotChiral:
+                rest.append(c)
+        if len(rest) == len(todo):
+            break
+        todo = rest
+    ok = str(m) == str(exp) and m == exp and n_labels(m) == n_labels(exp)
+    return not ok, (f'{smi_plain!r} labelled through the API ({len(calls)} calls, {len(todo)} refused as not stereogenic): {str(m)!r} '
+                    f'({n_labels(m)} labels); the marked spelling {smi_marked!r} parses to {str(exp)!r} ({n_labels(exp)} labels)')
+
+
+def dep_edit(smi_from, smi_to, num, new_symbol):
+    """(fails, what): replace atom `num` of the parsed smi_from by `new_symbol` (same valence), fix_stereo; the result must be
+    what smi_to (the same atom order with the replaced element, labels unchanged) parses to"""
+    from chython import smiles
+    from chython.periodictable import Element
+    m, exp = smiles(smi_from), smiles(smi_to)
+    if n_labels(m) < n_labels(exp):
+        # a unit that is not stereogenic before the edit has lost its label at parse time: nothing to restore, no expectation
+        return False, f'{smi_from!r}: {n_labels(m)} labels, {smi_to!r}: {n_labels(exp)} labels - no expectation'
+    old = m._atoms[num]
+    new = Element.from_symbol(new_symbol)()
+    new._implicit_hydrogens = old._implicit_hydrogens
+    m._atoms[num] = new
+    m.flush_cache()
+    m.calc_labels()
+    m.fix_stereo()
+    ok = str(m) == str(exp) and m == exp and n_labels(m) == n_labels(exp)
+    return not ok, (f'{smi_from!r} with atom {num} replaced by {new_symbol} + fix_stereo: {str(m)!r} ({n_labels(m)} labels); '
+                    f'{smi_to!r} parses to {str(exp)!r} ({n_labels(exp)} labels)')
+
+
+def _api_calls(sp, index):
+    num = {a: index[a] + 1 for a in index}
+    calls = []
+    for c, (ref, sign) in sp.centres.items():
+        env = [x for x in ref if x != 'h']
+        mark = sign != odd(env + (['h'] if 'h' in ref else []), list(ref))
+        calls.append(['c', num[c], [num[x] for x in env], bool(mark)])
+    for (a, b), (x, y, cis) in sp.dbonds.items():
+        calls.append(['d', num[a], num[b], num[x], num[y], bool(cis)])
+    return calls
+
+
+def dep_case(ctx, name, rng, n_spell, n_combos=None, n_hist=2, known=None):
+    """run one family member; reports through ctx.fail; returns number of failures"""
+    from chython import smiles
+    spec = dep_spec(name)
+    els, combos, cls = dep_combos(spec)
+    pick = list(range(len(combos)))
+    if n_combos is not None and n_combos < len(pick):
+        pick = sorted(rng.sample(pick, n_combos))
+        pick = sorted(set(pick) | {i ^ 1 for i in pick[:4]})     # keep some single-unit partners
+    ctx.dist(f'dependent:classes:{len(set(cls))}-of-{len(combos)}')
+    res, bad = {}, 0
+
+    def fail(sig, what, inp):
+        nonlocal bad
+        bad += 1
+        ctx.fail(known or f'C12/{sig}/{name}', what, inp)
+
+    for i in pick:
+        sp = combos[i]
+        sgen = sum(cls[i ^ (1 << j)] != cls[i] for j in range(len(els)))
+        strs, first = {}, None
+        for smi, index, _nb in spellings(sp, rng, n_spell):
+            ctx.count(('dependent', smi))
+            try:
+                m = smiles(smi)
+            except Exception as e:
+                fail('label-dependent-unit/reader-raises', f'{smi!r}: {type(e).__name__}: {e}', {'kind': 'reread', 'smiles': smi})
+                continue
+            strs[smi] = str(m)
+            if n_labels(m) != sgen:
+                fail('label-dependent-unit/labels-kept-vs-stereogenic-units',
+                     f'{smi!r} -> {str(m)!r} carries {n_labels(m)} labels; {sgen} of its {len(els)} marked units are stereogenic '
+                     f'(inverting one of them alone gives a different compound under every constitutional automorphism)',
+                     {'kind': 'stereo-count', 'smiles': smi, 'expected': sgen})
+            if first is None:
+                first = (smi, index)
+        if not strs:
+            continue
+        res[i] = strs
+        ref_smi, ref = next(iter(strs.items()))
+        for smi, s in strs.items():
+            if s != ref:
+                fail('label-dependent-unit/spellings-of-one-configuration-differ', f'{ref_smi!r} -> {ref!r} but {smi!r} -> {s!r} (one compound)',
+                     {'kind': 'spelling-pair', 'a': ref_smi, 'b': smi, 'same': True})
+                break
+        # histories, API labelling, edits on the first spelling
+        smi, index = first
+        for h in rng.sample(sorted(DEP_HISTORIES), n_hist):
+            ctx.count(('dependent-history', smi, h))
+            ctx.dist('dependent-history:' + h)
+            try:
+                f, what = dep_history(smi, h)
+            except Exception as e:
+                f, what = True, f'{smi!r} after {h}: {type(e).__name__}: {e}'
+            if f:
+                fail('label-dependent-unit/changed-by-constitution-preserving-operation', what, {'kind': 'dependent-history', 'smiles': smi, 'history': h})
+        if rng.random() < 0.5:
+            seed = rng.randrange(10 ** 9)
+            import random as _r
+            (smi_m, idx, _x), = list(spellings(sp, _r.Random(seed), 1))
+            (smi_p, idx2, _x), = list(spellings(plain_of(sp), _r.Random(seed), 1))
+            calls = _api_calls(sp, idx)
+            rng.shuffle(calls)
+            ctx.count(('dependent-api', smi_m))
+            try:
+                f, what = dep_api(smi_p, smi_m, calls)
+            except Exception as e:
+                f, what = True, f'{smi_p!r}: labelling API raised {type(e).__name__}: {e}'
+            if f:
+                fail('label-dependent-unit/api-labelling-differs-from-reader', what, {'kind': 'dependent-api', 'plain': smi_p, 'marked': smi_m, 'calls': calls})
+        leaves = [a for a in sp.atoms if a >= 20 and a < 30 and sp.atoms[a] in DEP_EDIT and len(sp.adj[a]) == 1]
+        if leaves and rng.random() < 0.5:
+            a = leaves[0]
+            sp2 = Spec({**sp.atoms, a: DEP_EDIT[sp.atoms[a]]}, sp.bonds, sp.centres, sp.dbonds, sp.name + '~edited')
+            seed = rng.randrange(10 ** 9)
+            import random as _r
+            (s1, idx, _x), = list(spellings(sp, _r.Random(seed), 1))
+            (s2, idx2, _x), = list(spellings(sp2, _r.Random(seed), 1))
+            for src, dst, sym in ((s1, s2, sp2.atoms[a]), (s2, s1, sp.atoms[a])):
+                ctx.count(('dependent-edit', src, dst))
+                try:
+                    f, what = dep_edit(src, dst, idx[a] + 1, sym)
+                except Exception as e:
+                    f, what = True, f'{src!r} edit: {type(e).__name__}: {e}'
+                if f:
+                    fail('label-dependent-unit/fix_stereo-after-edit-differs-from-fresh-parse', what,
+                         {'kind': 'dependent-edit', 'from': src, 'to': dst, 'atom': idx[a] + 1, 'symbol': sym})
+    # classes: same compound <=> equal; RDKit where it agrees with the judge
+    keys = sorted(res)
+    rd = {i: {s: rd_canon(s) for s in res[i]} for i in keys}
+    for x, i in enumerate(keys):
+        si, vi = next(iter(res[i].items()))
+        for j in keys[:x]:
+            sj, vj = next(iter(res[j].items()))
+            ctx.count(('dependent-pair', si, sj))
+            same = cls[i] == cls[j]
+            if same != (vi == vj):
+                fail('label-dependent-unit/' + ('one-compound-unequal' if same else 'stereoisomers-equal'),
+                     f'{si!r} -> {vi!r} and {sj!r} -> {vj!r}: ' + ('one compound (an automorphism carries one configuration onto the other)' if same
+                                                                   else 'different stereoisomers (no automorphism carries one configuration onto the other)')
+                     + f'; RDKit: {rd[i][si]!r} vs {rd[j][sj]!r}', {'kind': 'spelling-pair', 'a': si, 'b': sj, 'same': same})
+            if same != (rd[i][si] == rd[j][sj]):
+                ctx.dist('dependent:rdkit-disagrees-with-automorphism-judge')
+        if len(set(rd[i].values())) == 1 and None not in rd[i].values():
+            r_out = rd_canon(vi.split()[0])
+            ctx.count(('dependent-rdkit', si))
+            if r_out != rd[i][si] and all((cls[i] == cls[j]) == (rd[i][si] == next(iter(rd[j].values()))) for j in keys):
+                fail('label-dependent-unit/rdkit-disagrees', f'input {si!r} (RDKit canonical {rd[i][si]!r}) is written as {vi!r} (RDKit canonical {r_out!r})',
+                     {'kind': 'rdkit', 'smiles': si})
+    return bad
+
+
+def stream_dependent(ctx):
+    """R: hubs with constitutionally identical labelled arms: equality classes and label counts against the automorphism judge,
+    RDKit, constitution-preserving histories, API labelling, edits that make / unmake the arm equivalence"""
+    names = dep_names()
+    for name in names:
+        big = name.startswith('dep2')
+        if ctx.quick:
+            dep_case(ctx, name, ctx.rng, 3, 10 if big else None, 1)
+        else:
+            dep_case(ctx, name, ctx.rng, 8, None, 4)
